@@ -1175,6 +1175,24 @@ func c07GenMalformed(c *Ctx) {
 				}
 			}
 		}
+		// pseudo-ID mapping: the federation check uses the mapped user ID's domain, not the sender's
+		for _, mapped := range []string{"@alice:hs1", "@alice:hs2", "nope", ""} {
+			for _, sender := range []string{"@alice:hs1", "@alice:hs2"} {
+				for _, fed := range []interface{}{nil, false} {
+					n++
+					r := c07NewRoom(ver, fmt.Sprintf("y%d", n))
+					ce := J{}
+					if fed != nil {
+						ce["m.federate"] = fed
+					}
+					auths := [][]byte{r.create("@creator:hs1", ce), r.state("m.room.join_rules", "@creator:hs1", "", J{"join_rule": "public"})}
+					content := J{"membership": "join", "mxid_mapping": J{"user_id": mapped, "user_room_key": sender}}
+					ev := r.event(r.eventID("e"), "m.room.member", sender, sp(sender), content, []string{r.eventID("p")}, nil)
+					c.Count("malformed/mxid-mapping")
+					c.c07Run(ver, ev, auths, fmt.Sprintf("mxid mapping mapped=%q sender=%q fed=%v", mapped, sender, fed))
+				}
+			}
+		}
 		// provider details: duplicates (later replaces earlier), auth event without state key
 		for i := 0; i < 6; i++ {
 			n++
